@@ -269,7 +269,12 @@ def sym_payload(H, m, pfx="pl.", variant=None):
         lo, hi = _ARRAY_RANGE[arr.type]
         if isinstance(m, SpectraVoice) and attr == "harmonic_types":
             continue
-        arr.values = [H.int(f"{pfx}{attr}[{i}]", lo, hi) for i in range(arr.length)]
+        if variant == "inplace":
+            # the list the module was constructed with, edited item by item
+            for i in range(arr.length):
+                arr.values[i] = H.int(f"{pfx}{attr}[{i}]", lo, hi)
+        else:
+            arr.values = [H.int(f"{pfx}{attr}[{i}]", lo, hi) for i in range(arr.length)]
     if isinstance(m, SpectraVoice):
         # enum-typed array: one element case-split at a time
         i = variant if isinstance(variant, int) else 0
@@ -328,7 +333,8 @@ def payload_variants(cls, tier):
         return [0, 15] if tier == "quick" else list(range(16))
     if name == "VorbisPlayer":
         return [0, 1, 5] if tier == "quick" else [0, 1, 2, 5, 64]
-    if name in ("Generator", "AnalogGenerator"):
+    if name in ("Generator", "AnalogGenerator", "MultiSynth"):
+        # payloads with an elidable chunk: also edited in place (the list the constructor made)
         return [None, "inplace"]
     return [None]
 
